@@ -102,6 +102,27 @@ func driveOps(c *Ctx) error {
 		rs := collect(reps*2, func(int) []cty.Value { return a0 })
 		rr := collect(reps, func(i int) []cty.Value { return concretizeArgs(aj, i) })
 		ev := J{"ev": "call", "api": api, "x": x, "a": projectArgs(a0), "r": run(api, a0, x), "rs": rs, "rr": rr}
+		// per representation: the largest mantissa precision among number operands, and the outcome
+		allNum := len(a0) > 0
+		for _, v := range a0 {
+			if !(v.Type() == cty.Number && v.IsKnown() && !v.IsNull() && !v.IsMarked()) {
+				allNum = false
+			}
+		}
+		if allNum {
+			rp := []any{}
+			for i := 0; i < reps; i++ {
+				ai := concretizeArgs(aj, i)
+				mp := 0
+				for _, v := range ai {
+					if p := int(v.AsBigFloat().Prec()); p > mp {
+						mp = p
+					}
+				}
+				rp = append(rp, J{"mp": mp, "r": run(api, ai, x)})
+			}
+			ev["rp"] = rp
+		}
 		if len(api) > 3 && api[:3] == "fn:" {
 			ev["fn"] = api[3:]
 			if f, ok := lookupFunc(api[3:], x); ok {
